@@ -21,6 +21,21 @@ P = {
         text="Decides, for all paths and all inputs of the comparison-only predicates, the structural necessary conditions of C01: per-step event windows tile by provenance (R1), the SQL window is the half-open (lb, ub] predicate (R2), events are dispatched by scope_instance_id through an effective filter (R3), every scope/event/config has exactly one handling site (R4), delivery and retention conventions of both queues agree on every weak ordering (R5), handler effects are live (R6), payload slots agree (R7). It does NOT decide which step a boundary event lands in (binary rounding of three Julian dates) nor integrator root finding; level 'other' because the behavioural property is not proved.",
         ref="DESIGN.md section 4, C01",
     ),
+    "C05": dict(
+        technique="static analysis: dataflow of the float seconds component through rounding / truncation operators, exact rational folding of unit constants, provenance of the step-count quotient",
+        text="Decides the structural necessary conditions of C05: the float seconds of a Julian date are rounded (never truncated) before reaching a datetime and carry through timedelta (R1); the timed-run target date is julianDateToDatetime(start)+delta with calendar fields in order (R2); every seconds<->days constant folds to exactly 86400 or 1/86400 and the two scenario-time directions are exact reciprocals (R3); the step count is floor(round(delta)/physics step) with one stepForward per iteration and a common `+ dt_step` accumulation (R4). Does NOT decide monotonicity or sub-millisecond exactness of the calendar algorithm over 1901-2099 (float arithmetic).",
+        ref="DESIGN.md section 4, C05",
+    ),
+    "C08": dict(
+        technique="static analysis: interprocedural effect summaries (rebind / keyed store / accumulate / delete) of every Registration.processResults closure, key-provenance of keyed stores, CFG dominance of per-step resets over enqueue sites, slot agreement along the pointing payload chain",
+        text="Decides the structural necessary conditions of C08 for every schedule at once: merges into a registrant shared by the jobs of a batch are commutative (in-place accumulation, job-disjoint keyed stores, no rebind) (R1); every results-derived element is accumulated exactly once (R2); per-step buffers are reset at assess entry before the first enqueue and saved buffers are drained by their accessors (R3); every pointing update is applied to its sensor and every observation routed to its own target's update job, with payload slots preserved from sensor to agent (R4). Does NOT decide numerical identity across schedules (float reduction order, unseeded worker noise).",
+        ref="DESIGN.md section 4, C08",
+    ),
+    "C11": dict(
+        technique="static analysis: provenance of the ground dynamics' time base (shared rounding-discipline rule), instant-consistency of the capture expression, confinement of Terrestrial.propagate's return expression",
+        text="Decides the structural necessary conditions of C11: the ground dynamics' start datetime is the scenario start instant exactly (the JD->datetime conversion must round) (R1); the configured state is captured Earth-fixed at one instant, the clock's start (R2); Terrestrial.propagate depends only on the captured Earth-fixed state and start + elapsed seconds (R3); geodetic configuration slots and degree conversion (R4). Does NOT decide the metre-level accuracy of the reduction nor the inertial velocity values.",
+        ref="DESIGN.md section 4, C11",
+    ),
 }
 
 NA_PENDING = "check not built yet in this session (design in DESIGN.md section 4); will be claimed once its rule module exists"
